@@ -522,6 +522,8 @@ example : step Gen.tables exInc (.parLoop .ompParallelDo 0) = none := by decide
 example : step Gen.tables exReadInc (.parLoop .ompParallelDo 0) = none := by decide
 example : step Gen.tables exReadInc (.parLoop .ompDo 0) = none := by decide
 example : step Gen.tables exReadInc (.parLoop .accLoop 0) = none := by decide
+example : step Gen.tables exReadInc (.parLoop .genOmpDo 0) = none := by decide
+example : step Gen.tables exInc (.parLoop .genOmpParallelDo 0) = none := by decide
 -- hypotheses of C23_refusal_complete are satisfiable
 example : ltCells ≠ ltColour ∧ hasInc Gen.tables (kern true [(5, 5), (1, 0)] nil) = true := by decide
 -- a discontinuous loop is parallelised without colouring and cannot be coloured
